@@ -22,6 +22,10 @@
 
 static uint8_t *body;
 static size_t body_len;
+static uint8_t *body2;          /* second transfer of "e2e b11": its own byte stream */
+static size_t body2_len;
+static uint8_t app_tok2[8];
+static size_t app_tok2_len;
 static coap_context_t *srv, *cli;
 static coap_endpoint_t *ep;
 static coap_session_t *cs;
@@ -50,7 +54,12 @@ static void show_large(const coap_pdu_t *p) {
   const uint8_t *d = NULL;
   int r = coap_get_data_large(p, &len, &d, &off, &total);
   char eq = '?';
-  if (r && d) eq = (off + len <= body_len && memcmp(d, body + off, len) == 0) ? '=' : '!';
+  if (r && d) {
+    eq = (off + len <= body_len && memcmp(d, body + off, len) == 0) ? '=' : '!';
+    if (body2 && total == body2_len && off + len <= body2_len && memcmp(d, body2 + off, len) == 0 &&
+        !(eq == '=' && total == body_len))
+      eq = '+';                /* equals the second transfer's body at that offset */
+  }
   printf("%zu:%zu:%zu:%08x:%c", off, total, len, d ? fnv(d, len) : 0, eq);
 }
 
@@ -92,7 +101,8 @@ static coap_response_t hnd_resp(coap_session_t *s, const coap_pdu_t *sent, const
   coap_bin_const_t t = coap_pdu_get_token(rcv);
   printf("HC:%u:", coap_pdu_get_code(rcv));
   show_tok(rcv);
-  printf(":%c:", (t.length == app_tok_len && memcmp(t.s, app_tok, app_tok_len) == 0) ? 'T' : 'F');
+  printf(":%c:", (t.length == app_tok_len && memcmp(t.s, app_tok, app_tok_len) == 0) ? 'T' :
+         (body2 && t.length == app_tok2_len && memcmp(t.s, app_tok2, app_tok2_len) == 0) ? 'U' : 'F');
   show_large(rcv); fputc(':', stdout);
   show_blk(rcv, COAP_OPTION_BLOCK1); fputc(':', stdout);
   show_blk(rcv, COAP_OPTION_BLOCK2);
@@ -107,7 +117,8 @@ static void hnd_nack(coap_session_t *s, const coap_pdu_t *sent, const coap_nack_
   if (!sent) { printf("-:N "); return; }     /* e.g. a Reset for a message no longer queued */
   coap_bin_const_t t = coap_pdu_get_token(sent);
   show_tok(sent);
-  printf(":%c ", (t.length == app_tok_len && memcmp(t.s, app_tok, app_tok_len) == 0) ? 'T' : 'F');
+  printf(":%c ", (t.length == app_tok_len && memcmp(t.s, app_tok, app_tok_len) == 0) ? 'T' :
+         (body2 && t.length == app_tok2_len && memcmp(t.s, app_tok2, app_tok2_len) == 0) ? 'U' : 'F');
 }
 
 static int ev_srv(coap_session_t *s, coap_event_t e) {
@@ -187,6 +198,8 @@ static void deliver(size_t i) {
 
 static void e2e(void) {
   dir_b2 = !strcmp(vtok[1], "b2");
+  body2 = NULL;
+  body2_len = 0;
   body_len = (size_t)atol(vtok[2]);
   long seed = atol(vtok[3]);
   int type = atoi(vtok[4]);
@@ -251,11 +264,38 @@ static void e2e(void) {
   }
   show_state();
 
+  /* "e2e b11 ... <sched> <len2> <startB>": a second PUT to the same resource on the same session,
+   * sent when the datagram log has reached startB entries (0 = at once) */
+  int two = !strcmp(vtok[1], "b11") && vntok >= 15;
+  size_t start_b = 0;
+  int sent_b = 1;
+  body2 = NULL;
+  if (two) {
+    body2_len = (size_t)atol(vtok[13]);
+    start_b = (size_t)atol(vtok[14]);
+    body2 = (uint8_t *)malloc(body2_len ? body2_len : 1);
+    for (size_t i = 0; i < body2_len; i++) body2[i] = (uint8_t)fill_byte(seed + 1, (long)i);
+    sent_b = 0;
+  }
   size_t next = 0;
   coap_tick_t last_activity = vn_now;
   const char *why = "idle";
   for (long steps = 0;; steps++) {
-    if (steps > 400000 || vn_nout > 4 * (body_len / 16) + 600) { why = "steps"; break; }
+    if (steps > 400000 || vn_nout > 4 * ((body_len + body2_len) / 16) + 600) { why = "steps"; break; }
+    if (!sent_b && (vn_nout >= start_b || (next >= vn_nout && nheld == 0))) {
+      coap_pdu_t *p2 = coap_new_pdu(type ? COAP_MESSAGE_NON : COAP_MESSAGE_CON, COAP_REQUEST_CODE_PUT, cs);
+      coap_session_new_token(cs, &app_tok2_len, app_tok2);
+      coap_add_token(p2, app_tok2_len, app_tok2);
+      coap_add_option(p2, COAP_OPTION_URI_PATH, 1, (const uint8_t *)"t");
+      printf("TOK2:");
+      for (size_t i = 0; i < app_tok2_len; i++) printf("%02x", app_tok2[i]);
+      int ok2 = coap_add_data_large_request(cs, p2, body2_len, body2, rel_c, NULL);
+      printf(" ADL:%d ", ok2);
+      if (ok2) printf("SEND:%d ", coap_send(cs, p2));
+      else coap_delete_pdu(p2);
+      sent_b = 1;
+      continue;
+    }
     if (next < vn_nout) {
       size_t i = next++;
       char act = i < nsched ? sched[i] : '.';
@@ -307,6 +347,9 @@ static void e2e(void) {
   printf("FIN:%d:%d:%zu\n", n_rel_c, n_rel_s, vn_nout);
   free(body);
   body = NULL;
+  free(body2);
+  body2 = NULL;
+  body2_len = 0;
 }
 
 
@@ -320,6 +363,16 @@ static void e2e(void) {
  */
 static int peer_hs, peer_hc;
 static char peer_res[128];
+static long peer_seed;
+
+/* the body that goes with Request-Tag / ETag t: its own byte stream, so that mixing shows */
+static uint8_t peer_byte(unsigned long t, size_t i) { return (uint8_t)fill_byte(peer_seed + (long)t, (long)i); }
+
+static char peer_eq(unsigned long t, const uint8_t *d, size_t len) {
+  if (len != body_len) return '!';
+  for (size_t i = 0; i < len; i++) if (d[i] != peer_byte(t, i)) return '!';
+  return '=';
+}
 
 static void hnd_put_peer(coap_resource_t *r, coap_session_t *s, const coap_pdu_t *req,
                          const coap_string_t *q, coap_pdu_t *resp) {
@@ -329,8 +382,13 @@ static void hnd_put_peer(coap_resource_t *r, coap_session_t *s, const coap_pdu_t
   (void)r; (void)s; (void)q;
   coap_get_data_large(req, &len, &d, &off, &total);
   peer_hs++;
-  snprintf(peer_res, sizeof(peer_res), "%c:%zu:%08x",
-           coap_get_block_b(NULL, req, COAP_OPTION_BLOCK1, &b) ? 'P' : 'D', len, fnv(d, d ? len : 0));
+  coap_opt_iterator_t oi;
+  coap_opt_t *o = coap_check_option(req, COAP_OPTION_RTAG, &oi);
+  unsigned long t = o ? coap_decode_var_bytes(coap_opt_value(o), coap_opt_length(o)) : 0;
+  if (coap_get_block_b(NULL, req, COAP_OPTION_BLOCK1, &b))
+    snprintf(peer_res, sizeof(peer_res), "P:%zu:%08x", len, fnv(d, d ? len : 0));
+  else
+    snprintf(peer_res, sizeof(peer_res), "D:%zu:%08x:%c", len, fnv(d, d ? len : 0), peer_eq(t, d, d ? len : 0));
   coap_pdu_set_code(resp, COAP_RESPONSE_CODE_CHANGED);
 }
 
@@ -343,9 +401,13 @@ static coap_response_t hnd_resp_peer(coap_session_t *s, const coap_pdu_t *sent, 
   (void)s; (void)sent; (void)mid;
   coap_get_data_large(rcv, &len, &d, &off, &total);
   peer_hc++;
-  if (code == 69)
-    snprintf(peer_res, sizeof(peer_res), "%c:%zu:%08x",
-             coap_get_block_b(NULL, rcv, COAP_OPTION_BLOCK2, &b) ? 'P' : 'D', len, fnv(d, d ? len : 0));
+  coap_opt_iterator_t oi;
+  coap_opt_t *o = coap_check_option(rcv, COAP_OPTION_ETAG, &oi);
+  unsigned long t = o ? (unsigned long)coap_decode_var_bytes8(coap_opt_value(o), coap_opt_length(o)) : 0;
+  if (code == 69 && coap_get_block_b(NULL, rcv, COAP_OPTION_BLOCK2, &b))
+    snprintf(peer_res, sizeof(peer_res), "P:%zu:%08x", len, fnv(d, d ? len : 0));
+  else if (code == 69)
+    snprintf(peer_res, sizeof(peer_res), "D:%zu:%08x:%c", len, fnv(d, d ? len : 0), peer_eq(t, d, d ? len : 0));
   else if (code == 130) snprintf(peer_res, sizeof(peer_res), "J");
   else if (code == 136) snprintf(peer_res, sizeof(peer_res), "F");
   else snprintf(peer_res, sizeof(peer_res), "E%u", code);
@@ -357,8 +419,8 @@ static void peer(void) {
   body_len = (size_t)atol(vtok[2]);
   long seed = atol(vtok[3]);
   int szx_cfg = atoi(vtok[4]), single = atoi(vtok[5]);
+  peer_seed = seed;
   body = (uint8_t *)malloc(body_len ? body_len : 1);
-  for (size_t i = 0; i < body_len; i++) body[i] = (uint8_t)fill_byte(seed, (long)i);
   vn_now = 1000;
   vn_log_reset();
   vn_nnodes = 0;
@@ -431,7 +493,11 @@ static void peer(void) {
         coap_add_option(p, COAP_OPTION_RTAG, coap_encode_var_safe(buf, sizeof(buf), (unsigned)t), buf);
       }
     }
-    if (len > 0) coap_add_data(p, (size_t)len, body + off);
+    {
+      unsigned long t = strcmp(tag_s, "-") ? strtoul(tag_s, NULL, 10) : 0;
+      for (long q = 0; q < len; q++) body[q] = peer_byte(t, (size_t)(off + q));
+      if (len > 0) coap_add_data(p, (size_t)len, body);
+    }
     size_t hs = coap_pdu_encode_header(p, COAP_PROTO_UDP);
     size_t first = vn_nout;
     peer_res[0] = 0;
@@ -459,6 +525,9 @@ static void peer(void) {
   coap_free_context(srv);
   free(body);
   body = NULL;
+  free(body2);
+  body2 = NULL;
+  body2_len = 0;
 }
 
 int main(void) {
